@@ -248,6 +248,57 @@ fn run_case(case: &SeqCase, seam_ops: &mut u64) -> Option<Violation> {
     })
 }
 
+/// Part D: a sequence on the required-methods-only user sink, compared with the ideal bit string after every operation.
+fn run_user_seq(case: &SeqCase, seam_ops: &mut u64) -> Option<Violation> {
+    let mk = |class: &str, site: String, message: String, detail: String| {
+        Some(Violation {
+            class: class.into(),
+            site,
+            message,
+            detail,
+            case: serde_json::to_value(case).unwrap(),
+        })
+    };
+    let mut sink = ReqSink(Core::failing(None, false));
+    let mut ideal = BitModel::default();
+    for (i, op) in case.ops.iter().enumerate() {
+        let before = ideal.len();
+        apply_model(&mut ideal, op);
+        let want_pad = match op {
+            Op::Align => Some((8 - before % 8) % 8),
+            Op::Bytes { .. } => Some((8 - before % 8) % 8),
+            _ => None,
+        };
+        let got = pan::catch(|| match op {
+            Op::Align => sink.align_to_byte().map(Some),
+            Op::Bytes { data } => sink.write_bytes_aligned(data).map(Some),
+            other => apply_sink(&mut sink, other).map(|()| None),
+        });
+        *seam_ops += 1;
+        match got {
+            Err(c) => return mk("panic", c.site, c.message, format!("op {i} ({op:?}) on the required-methods-only user sink panicked")),
+            Ok(Err(e)) => return mk("user_sink_write_failed", String::new(), format!("{e}"), format!("op {i} ({op:?}) returned an error on a sink that never fails")),
+            Ok(Ok(pad)) => {
+                if sink.0.model != ideal {
+                    let at = sink.0.model.bits.iter().zip(ideal.bits.iter()).position(|(a, b)| a != b);
+                    return mk(
+                        "user_sink_bits_differ",
+                        String::new(),
+                        String::new(),
+                        format!("after op {i} ({op:?}) the required-methods-only user sink holds {} bits, the ideal bit string {} (first difference at {at:?})", sink.0.model.len(), ideal.len()),
+                    );
+                }
+                if let (Some(p), Some(w)) = (pad, want_pad) {
+                    if p != w {
+                        return mk("wrong_pad_count", String::new(), String::new(), format!("op {i} ({op:?}) at bit offset {before} returned pad count {p}, {w} bits were needed"));
+                    }
+                }
+            }
+        }
+    }
+    None
+}
+
 const WIDTHS: [u8; 4] = [8, 16, 32, 64];
 
 fn patterns(t: u8) -> Vec<u64> {
@@ -331,6 +382,16 @@ pub struct CompCase {
     pub component: String,
     /// "required", "overridden" or "u64"
     pub sink: String,
+    /// number of 1-bits written before the component (the component then starts at a non-aligned offset)
+    #[serde(default)]
+    pub prefix_bits: usize,
+}
+
+fn with_prefix<S: BitSink>(s: &mut S, n: usize) -> Result<(), S::Error> {
+    if n > 0 {
+        s.write_lsbs(u64::MAX, n)?;
+    }
+    Ok(())
 }
 
 fn run_comp_case(comp: &Comp, case: &CompCase, seam_ops: &mut u64) -> Option<Violation> {
@@ -345,6 +406,7 @@ fn run_comp_case(comp: &Comp, case: &CompCase, seam_ops: &mut u64) -> Option<Vio
     };
     let reference = pan::catch(|| {
         let mut s = ByteSink::new();
+        with_prefix(&mut s, case.prefix_bits).expect("HARNESS: prefix");
         comp.write(&mut s).map(|()| (s.len(), s.into_inner())).map_err(|e| format!("{e}"))
     });
     let (nbits, bytes) = match reference {
@@ -356,14 +418,17 @@ fn run_comp_case(comp: &Comp, case: &CompCase, seam_ops: &mut u64) -> Option<Vio
     let got: Result<Result<(BitModel, usize), String>, pan::Caught> = match case.sink.as_str() {
         "required" => pan::catch(|| {
             let mut s = ReqSink(Core::failing(None, false));
+            with_prefix(&mut s, case.prefix_bits).expect("HARNESS: prefix");
             comp.write(&mut s).map(|()| (s.0.model.clone(), s.0.ops)).map_err(|e| format!("{e}"))
         }),
         "overridden" => pan::catch(|| {
             let mut s = FullSink(Core::failing(None, false));
+            with_prefix(&mut s, case.prefix_bits).expect("HARNESS: prefix");
             comp.write(&mut s).map(|()| (s.0.model.clone(), s.0.ops)).map_err(|e| format!("{e}"))
         }),
         _ => pan::catch(|| {
             let mut s = MemSink::<u64>::new();
+            with_prefix(&mut s, case.prefix_bits).expect("HARNESS: prefix");
             comp.write(&mut s)
                 .map(|()| {
                     let n = s.len();
@@ -483,6 +548,41 @@ pub fn run(ctx: &crate::RunCtx) -> (Summary, Vec<Violation>) {
             sum.samples.push(serde_json::to_value(&case).unwrap());
         }
     }
+    // ---- Part D: operation sequences on a required-methods-only user sink. The provided trait methods
+    // (write_bytes_aligned, write_twoc, write_zeros) run the library's default implementations; the bits
+    // the sink receives through its four required methods must be the ideal bit string, and the pad
+    // counts returned by align_to_byte / write_bytes_aligned must be the number of bits added.
+    for j in 0..(ctx.count / 4).max(200) {
+        n_case += 1;
+        if n_case % ctx.nchild != ctx.child {
+            continue;
+        }
+        let mut r = Rng::new(mix(ctx.seed, 0xC11_D000 + j));
+        let len = 1 + r.below(24);
+        let ops: Vec<Op> = (0..len)
+            .map(|_| if r.chance(0.35) { Op::Bytes { data: (0..r.below(4)).map(|_| r.next_u64() as u8).collect() } } else { random_op(&mut r) })
+            .collect();
+        let case = SeqCase {
+            part: "D".into(),
+            sink: "required".into(),
+            ops,
+        };
+        sum.cases += 1;
+        let h = crate::rng::fnv(&serde_json::to_string(&case).unwrap());
+        if seen.insert(h) {
+            sum.distinct_nontrivial += 1;
+        }
+        for op in &case.ops {
+            *sum.ops_hist.entry(format!("D_{}", op_name(op))).or_default() += 1;
+        }
+        let ops0 = seam_ops;
+        let verdict = run_user_seq(&case, &mut seam_ops);
+        sum.note(n_case, (seam_ops - ops0) ^ verdict.as_ref().map_or(0, |v| crate::rng::fnv(&v.class)));
+        if let Some(v) = verdict {
+            *sum.classes.entry(v.class.clone()).or_default() += 1;
+            viols.push(v);
+        }
+    }
     // ---- Part C
     let ncorpus = if ctx.tier == "thorough" { 300 } else { 40 };
     for idx in 0..ncorpus {
@@ -491,7 +591,11 @@ pub fn run(ctx: &crate::RunCtx) -> (Summary, Vec<Violation>) {
             corpus::kinds(&item, &mut sum.probes);
         }
         for (name, comp) in components(&item) {
-            for sink in ["required", "overridden", "u64"] {
+            for (sink, prefix_bits) in [("required", 0usize), ("overridden", 0), ("u64", 0), ("required", 3), ("overridden", 5), ("u64", 61)] {
+                // whole streams start with the marker and are only meaningful from offset 0
+                if prefix_bits > 0 && name.starts_with("stream") {
+                    continue;
+                }
                 n_case += 1;
                 if n_case % ctx.nchild != ctx.child {
                     continue;
@@ -502,10 +606,11 @@ pub fn run(ctx: &crate::RunCtx) -> (Summary, Vec<Violation>) {
                     spec: item.spec.clone(),
                     component: name.clone(),
                     sink: sink.into(),
+                    prefix_bits,
                 };
                 sum.cases += 1;
                 sum.distinct_nontrivial += 1;
-                *sum.ops_hist.entry(format!("C_{sink}")).or_default() += 1;
+                *sum.ops_hist.entry(format!("C_{sink}{}", if prefix_bits > 0 { "_unaligned_start" } else { "" })).or_default() += 1;
                 let ops0 = seam_ops;
                 let verdict = run_comp_case(&comp, &case, &mut seam_ops);
                 sum.note(n_case, (seam_ops - ops0) ^ verdict.as_ref().map_or(0, |v| crate::rng::fnv(&v.class)));
@@ -555,6 +660,9 @@ pub fn exec(case: &serde_json::Value) -> Result<Option<Violation>, String> {
         Ok(run_comp_case(&comp, &c, &mut ops))
     } else {
         let c: SeqCase = serde_json::from_value(case.clone()).map_err(|e| format!("bad C11 case: {e}"))?;
+        if c.part == "D" {
+            return Ok(run_user_seq(&c, &mut ops));
+        }
         Ok(run_case(&c, &mut ops))
     }
 }
@@ -567,6 +675,9 @@ pub fn minimise(case: &serde_json::Value, class: &str, site: &str) -> serde_json
     };
     let same = |c: &SeqCase| {
         let mut o = 0;
+        if c.part == "D" {
+            return matches!(run_user_seq(c, &mut o), Some(v) if v.class == class && v.site == site);
+        }
         run_case(c, &mut o).map_or(false, |v| v.class == class && v.site == site)
     };
     if !same(&c) {
